@@ -26,6 +26,7 @@ ASSUMPTIONS = [
 UNIT_TIMEOUT = {"quick": 150, "thorough": 2400}
 
 PROFILE = gen.profile(
+    struct_depth_choices=[1, 2, 2, 3, 4],
     p_shared=0.7,
     p_item_fault=0.03,
     p_wrap=0.6,
